@@ -111,8 +111,9 @@ def unify(p, n, b: Dict[str, object]) -> bool:
             if field in ("body", "orelse", "finalbody") and _is_any_body(pv):
                 continue
             if field == "orelse" and pv == [] and isinstance(p, (ast.If, ast.For, ast.While)):
-                # a pattern without else matches only statements without else
-                if nv:
+                # a pattern without else matches only statements without else - unless its body is `...` (the pattern
+                # is about the header only)
+                if nv and not _is_any_body(p.body):
                     return False
                 continue
             if not unify(pv, nv, b):
